@@ -151,6 +151,7 @@ func runC08(c *Ctx) {
 	checkCompressionFlagIsTheWifs(c, "C08-R3")
 	checkSameNamedParametersNotCrossed(c, "C08-R3", "waddrmgr")
 	checkSyncPointWrittenThroughManager(c, "C08-R2")
+	checkBlockHashAnswersFromDatabase(c, "C08-R2")
 	checkDerivationPathLiterals(c, "C08-R3")
 	checkRowRewrites(c, "C08-R4")
 	c.Advisory("Manager.SetBirthday stores the in-memory birthday before writing it (outside the property's query list)")
@@ -239,6 +240,44 @@ func checkDryRun(c *Ctx, rule string) {
 		}
 	}
 	c.Floor(rule, "dry-run branch in txToOutputs", n, 1)
+	// ... and ONLY a dry run rolls back: the sentinel (which the caller turns into success) is returned nowhere but behind
+	// the edge on which the dryRun flag is set. Returned for another reason as well (a watching-only wallet, say), every
+	// real call in that state succeeds while its transaction is rolled back: the change address it derived is recorded
+	// nowhere and the next call hands out the same one.
+	for _, cl := range Closures(tto) {
+		if cl == tto {
+			continue
+		}
+		isDry := func(from *ssa.BasicBlock, si int) bool {
+			f := edgeFactOf(from, si)
+			if f == nil || f.Kind != "true" {
+				return false
+			}
+			if u, ok := f.V.(*ssa.UnOp); ok {
+				if fv, ok := u.X.(*ssa.FreeVar); ok {
+					return fv.Name() == "dryRun"
+				}
+			}
+			return false
+		}
+		for _, b := range cl.Blocks {
+			r, ok := b.Instrs[len(b.Instrs)-1].(*ssa.Return)
+			if !ok || len(r.Results) == 0 {
+				continue
+			}
+			sentinel := false
+			for _, pr := range append([]*ssa.BasicBlock{nil}, b.Preds...) {
+				if isGlobalLoad(resolvePhi(effectiveResult(r, 0), b, pr), "ErrDryRunRollBack") {
+					sentinel = true
+				}
+			}
+			if !sentinel {
+				continue
+			}
+			c.Check(rule, "only-a-dry-run-rolls-back", r.Pos(), !reachableAvoiding(cl, nil, r, isDry),
+				"txToOutputs' transaction can return the dry-run sentinel although dryRun is false: the call reports success, the database transaction is rolled back, and the change address it issued is issued again")
+		}
+	}
 	// caller: success mapping only for that sentinel
 	okMap := false
 	for _, b := range tto.Blocks {
